@@ -164,12 +164,37 @@ Definition inv_handler (h : hkind) (o : reply) : option (list write) :=
   | _, _ => None
   end.
 
+(* A torn value.  Go writes and reads a string or a slice as several words; when two
+   requests write the same field of the shared argument concurrently, a reader can
+   see the pointer of one value with the length of another: a prefix of one
+   candidate, cut or extended to the length of another candidate.  This is a data
+   race proper and lies outside the interleaving semantics of part (1); the relation
+   accepts it (only where other requests write the same cell concurrently) so that
+   the correspondence check does not mistake it for a disagreement, and the property
+   checker reports it under its own clause. *)
+Definition torn_of (a b x : string) : bool :=
+  String.prefix (String.substring 0 (Nat.min (String.length a) (String.length b)) a) x.
+
+Definition torn_in (x : write) (l : list write) : bool :=
+  match x with
+  | WS s => existsb (fun a => existsb (fun b => match a, b with
+                                                | WS sa, WS sb => torn_of sa sb s
+                                                | _, _ => false end) l) l
+  | WD d => existsb (fun a => existsb (fun b => match a, b with
+                                                | WD da, WD db => torn_of da db d
+                                                | _, _ => false end) l) l
+  | _ => false
+  end.
+
+Definition cand_ok (tornable : bool) (x : write) (l : list write) : bool :=
+  mem_write x l || (tornable && torn_in x l).
+
 (* some argument with every field among [cs] makes the handler answer [o] *)
-Definition explained (r : reg) (cs : fld -> list write) (o : reply) : bool :=
+Definition explained (r : reg) (tornable : bool) (cs : fld -> list write) (o : reply) : bool :=
   match inv_handler (r_h r) o with
   | None => false
   | Some constr =>
-      forallb (fun x => mem_write x (cs (fld_of x))) constr &&
+      forallb (fun x => cand_ok tornable x (cs (fld_of x))) constr &&
       match cs FS, cs FI, cs FB, cs FD with
       | s :: _, i :: _, b :: _, d :: _ =>
           let arg := apply_writes (apply_writes zero_msg [s; i; b; d]) constr in
@@ -224,7 +249,9 @@ Definition admissible (fl : flags) (w : world) (clients : list ckind) (a : astat
               match nth_error (a_cells a) ri with
               | None => false
               | Some cell =>
-                  explained r (cands (fix_f17 fl) cell (p_writes p) (other_writes w rd ri i 0)) o
+                  let others := other_writes w rd ri i 0 in
+                  explained r (negb (fix_f17 fl) && match others with [] => false | _ => true end)
+                            (cands (fix_f17 fl) cell (p_writes p) others) o
               end
           end
       end
